@@ -253,11 +253,15 @@ def case(ctx, rng, idx):
 
     def judge(sol, where):
         """sol: assignment of H's variables (maybe with ancillas) in H's kind"""
+        sol_before = dict(sol)
+        exp = {k: v for k, v in sol_before.items() if k not in ancs}
         ok, core = ctx.call("remove_ancilla_from_solution", T.remove_ancilla_from_solution, sol, _w=w)
         if not ok:
             return False
         ctx.count("remove_ancilla-checks")
-        exp = {k: v for k, v in sol.items() if k not in ancs}
+        if dict(sol) != sol_before:
+            ctx.violation("remove_ancilla_from_solution:argument-mutated", "the caller's solution %r became %r" % (sol_before, dict(sol)), w)
+            return False
         if core != exp:
             ctx.violation("remove_ancilla_from_solution-wrong", "got %r expected %r" % (core, exp), w)
             return False
